@@ -393,11 +393,111 @@ def factor_cases(draw):
     return {'stmt': A.query(src, select, where=where), 'data': _GRID}
 
 
+# ---- lazy feed: what a hint-honouring origin answers must not outlive the statement it was answered for -----------------
+_LAZY_ROWS = [{'id': 1, 'a': 1, 'y': 0.5, 's': 'a'}, {'id': 2, 'a': 3, 'y': 2.0, 's': 'b'}, {'id': 3, 'a': 3, 'y': -1.0, 's': 'x'}]
+_LAZY_COLS = ['id', 'a', 'y', 's']
+lazy_history_spec = st.fixed_dictionaries(
+    {
+        # the origin keeps a pre-projected ("narrow") partition with these columns and answers a column hint it covers with it
+        'narrow': st.lists(st.sampled_from(_LAZY_COLS), min_size=1, max_size=3, unique=True).map(sorted),
+        'reads': st.lists(
+            st.fixed_dictionaries(
+                {
+                    'select': st.lists(st.sampled_from(_LAZY_COLS), min_size=1, max_size=3, unique=True),
+                    'where': st.sampled_from([None, None, 'a', 'y']),
+                }
+            ),
+            min_size=2,
+            max_size=4,
+        ),
+    }
+)
+
+
+def _lazy_child(spec) -> list:
+    """Forked child (the lazy reader keeps its DuckDB back-end and registrations process-wide)."""
+    import pandas  # pylint: disable=import-outside-toplevel
+
+    from forml.provider.feed import lazy  # pylint: disable=import-outside-toplevel
+    from vf.dslx import catalog  # pylint: disable=import-outside-toplevel
+
+    table = catalog.BY_NAME['B']
+    narrow = list(spec['narrow'])
+
+    class Honouring(lazy.Origin):
+        """Answers a column hint covered by its narrow partition with that partition, anything else with a full load."""
+
+        @property
+        def source(self):
+            return table
+
+        @property
+        def key(self):
+            return 'lazy_b'
+
+        def partitions(self, columns, predicate):
+            names = {c.name for c in columns}
+            return ('narrow',) if names and names <= set(narrow) else ()
+
+        def load(self, partition):
+            frame = pandas.DataFrame(_LAZY_ROWS)
+            return frame[narrow] if partition == 'narrow' else frame
+
+    # a result cache of its own (the stock one is keyed by SQL text only and would answer from earlier cases)
+    import pathlib  # pylint: disable=import-outside-toplevel
+    import tempfile  # pylint: disable=import-outside-toplevel
+
+    from forml.provider.feed import alchemy as stock  # pylint: disable=import-outside-toplevel
+
+    cache = tempfile.mkdtemp(prefix='vf-c14-lazy-')
+    lazy.Feed.Reader.RESULTS = stock.Results(pathlib.Path(cache))
+    feed = lazy.Feed(Honouring())
+    out = []
+    for read in spec['reads']:
+        statement = table.select(*(getattr(table, c) for c in read['select']))
+        if read['where'] is not None:
+            statement = statement.where(getattr(table, read['where']) > 0)
+        try:
+            producer = feed.producer(feed.sources, feed.features, **feed._readerkw)  # pylint: disable=protected-access
+            rows = [[v.item() if hasattr(v, 'item') else v for v in row] for row in producer(statement, None).to_rows()]
+            out.append({'rows': rows})
+        except Exception as exc:  # pylint: disable=broad-except
+            out.append({'err': type(exc).__name__, 'frame': forml_frame(exc), 'msg': ' '.join(str(exc).split())[:300]})
+    import shutil  # pylint: disable=import-outside-toplevel
+
+    shutil.rmtree(cache, ignore_errors=True)
+    return out
+
+
+def check_lazy_history(ctx, spec):
+    from vf.meta import iso  # pylint: disable=import-outside-toplevel
+
+    narrow = set(spec['narrow'])
+    needs = [set(r['select']) | ({r['where']} if r['where'] else set()) for r in spec['reads']]
+    kinds = ['narrow' if n <= narrow else 'full' for n in needs]
+    classes = ['lazy-history'] + [f'lazy:{a}-then-{b}' for a, b in zip(kinds, kinds[1:])]
+    ctx.case(spec, nontrivial='lazy:narrow-then-full' in classes, classes=sorted(set(classes)))
+    res = iso.forked(_lazy_child, spec, timeout=120.0)
+    if isinstance(res, dict) and '__child_error__' in res:
+        raise RuntimeError(f"lazy child failed: {res['__child_error__']}\n{res.get('traceback')}")
+    for i, (read, got) in enumerate(zip(spec['reads'], res)):
+        tags = [f'{kinds[i - 1]}-then-{kinds[i]}'] if i else ['first']
+        if 'err' in got:
+            ctx.fail(spec, 'lazy-read-raises', f"{got['err']}@{got['frame']}", f"read {i} {read}: {got['msg']}", tags)
+            return
+        rows = [r for r in _LAZY_ROWS if read['where'] is None or r[read['where']] > 0]
+        expected = sorted(tuple(r[c] for c in read['select']) for r in rows)
+        if sorted(tuple(r) for r in got['rows']) != expected:
+            ctx.fail(spec, 'lazy-read', 'differs', f"read {i} {read}: got {got['rows']} expected {expected}", tags)
+            return
+
+
 def campaigns(ctx):
     return [
         Campaign('hints', case_strategy(False), check_hints, 450, 3000),
         Campaign('clean', case_strategy(True), check_hints, 450, 3000),
         Campaign('factors', factor_cases(), check_hints, 200, 2000),
+        Campaign('lazy-history', lazy_history_spec, check_lazy_history, 40, 150),
     ]
 
 
